@@ -455,9 +455,47 @@ def gen_typedef(item, stripped, relfile, log):
     return segs
 
 
-def generate(unit_name, repo=None, force_stub=(), workdir=None):
+def find_free_helper(unit, name, repo=None):
+    """A receiver-less helper `fn name(..)` (free function, or associated function without `self`) in one of the source files
+    the unit's engine functions come from: returned as an item WITHOUT a contract (units with auto_helpers only)."""
+    repo = repo or REPO
+    seen = set()
+    for it in unit['items']:
+        f = it.get('file')
+        if it.get('kind') != 'fn' or not f or f in seen or not f.endswith('.rs'):
+            continue
+        seen.add(f)
+        try:
+            stripped = rustsrc.strip_comments(open(os.path.join(repo, f)).read())
+        except OSError:
+            continue
+        for m in re.finditer(r'\bfn\s+%s\s*(?:<[^>]*>)?\s*\(\s*([^)]*)\)' % re.escape(name), stripped):
+            if re.match(r'\s*&?\s*(mut\s+)?self\b', m.group(1)):
+                continue
+            # enclosing impl block (if any): reuse the item whose impl contains the match
+            impl = None
+            for im in re.finditer(r'(?m)^impl\b[^{;]*\{', stripped):
+                ob = im.end() - 1
+                if ob < m.start() <= rustsrc.match_close(stripped, ob):
+                    impl = '^' + re.escape(re.sub(r'\s+', ' ', im.group(0)[:-1]).strip()) + '$'
+            from . import rules as RL
+            d = dict(kind='fn', file=f, name=name, label='helper::%s' % name, rules=list(RL.R5), auto_helper=True)
+            if impl:
+                d['impl'] = impl
+                donor = next((x for x in unit['items'] if x.get('kind') == 'fn' and x.get('file') == f and x.get('impl_rules')), None)
+                if donor:
+                    d['impl_rules'] = donor['impl_rules']
+            return d
+    return None
+
+
+def generate(unit_name, repo=None, force_stub=(), workdir=None, extra_helpers=()):
     repo = repo or REPO
     unit = load_unit(unit_name)
+    if extra_helpers:
+        # helpers go before the first function item (after type definitions and raw specification text)
+        idx = next((i for i, it in enumerate(unit['items']) if it.get('kind') == 'fn'), len(unit['items']))
+        unit = dict(unit, items=unit['items'][:idx] + list(extra_helpers) + unit['items'][idx:])
     auto_stubbed = {}
     log = []
     dropped_hints = []
